@@ -3,10 +3,13 @@
 # (evidence files written during these runs are restored from git afterwards)
 cd /verif || exit 2
 out=seeded/RESULTS.tsv
-: > $out
+# usage: seeded_matrix.sh [id ...]   (no ids: every kept change; with ids: only those rows are replaced)
+sel="$*"
+if [ -z "$sel" ]; then : > $out; else for i in $sel; do grep -v -P "^$i\t" $out > $out.tmp; mv $out.tmp $out; done; fi
 trap 'git -C /repo checkout -- . ; git -C /verif checkout -- evidence' EXIT
 for d in seeded/C*-*/; do
   id=$(basename $d); P=${id%-*}
+  if [ -n "$sel" ]; then case " $sel " in *" $id "*) ;; *) continue;; esac; fi
   extra=$(python3 -c "import json;print(' '.join(json.load(open('$d/meta.json')).get('also_check',[])))" 2>/dev/null)
   git -C /repo apply /verif/${d}patch.diff || { echo -e "$id\tPATCH-DOES-NOT-APPLY" >> $out; continue; }
   for p in $P $extra; do
@@ -19,4 +22,4 @@ for d in seeded/C*-*/; do
   done
   git -C /repo checkout -- .
 done
-cat $out
+sort -o $out $out; cat $out
